@@ -7,6 +7,7 @@ CONSTANTS
   Ratios <- MC_Ratios
   MaxPulses = 4
   MaxTurns = 12
+  Pick = 0
   Bug = "none"
 INVARIANT TypeOK
 INVARIANT RejectedIffOverlap
